@@ -42,6 +42,11 @@
 //   - mem.noreturn: a seam that never returns (nonRecoverablePageFault panics): the call is recorded and the function ends
 //     there, as after a return - the final world then shows the state at the moment of the panic and, as its most recent
 //     event, the call with its arguments (mem.errarg encodes an error-typed argument as a garg);
+//   - mem.visitorvars ("visitElfSectionsFn": "sections"): `var visitor = func(_ string, a T1, b T2, ..) { body }` followed by the
+//     statement visitElfSectionsFn(<expression mentioning visitor>) is  gvisit (fun it st => body') sections state  where
+//     `sections : list (N * ..)` is an extra parameter of the translated function (one component per closure parameter
+//     that is not named _); the closure has NO result: falling off its end and `return` both mean "next item"; a `return`
+//     inside a for loop inside the closure leaves the loop and the closure (GRet);
 //
 // Everything here is guarded by memOn(): the output for configs without "mem" is unchanged.
 package main
@@ -81,6 +86,9 @@ type memSpec struct {
 	NoReturn []string `json:"noreturn"`
 	// ErrArg: Coq function option string -> garg encoding an error value passed to a seam
 	ErrArg string `json:"errarg"`
+	// VisitorVars: a visitor function that is handed a closure STORED IN A VARIABLE (`var visitor = func(..) {..}`, passed
+	// as visitFn(<anything mentioning &visitor>)): function -> name of the extra parameter holding the sequence of items
+	VisitorVars map[string]string `json:"visitorvars"`
 }
 
 type memFnSpec struct {
@@ -541,10 +549,23 @@ func (tr *translator) memStmt(stmts []ast.Stmt, en *env, k func(*env) string, re
 		return "", false
 	}
 	switch s := stmts[0].(type) {
+	case *ast.ReturnStmt:
+		if out, ok := tr.memVoidReturn(s); ok {
+			return out, true
+		}
 	case *ast.DeclStmt:
 		gd, ok := s.Decl.(*ast.GenDecl)
 		if !ok || gd.Tok != token.VAR {
 			return "", false
+		}
+		if len(gd.Specs) == 1 {
+			if vs0 := gd.Specs[0].(*ast.ValueSpec); len(vs0.Names) == 1 && len(vs0.Values) == 1 {
+				if fl, isLit := vs0.Values[0].(*ast.FuncLit); isLit && len(memCfg.Mem.VisitorVars) > 0 {
+					// var visitor = func(..) {..} : remembered until it is handed to its visitor function
+					memClosureVars[tr.memClosureKey(vs0.Names[0].Name)] = fl
+					return rest(en), true
+				}
+			}
 		}
 		total := 0
 		for _, sp := range gd.Specs {
@@ -689,6 +710,9 @@ func (tr *translator) memStmt(stmts []ast.Stmt, en *env, k func(*env) string, re
 			return "", false
 		}
 		if out, ok := tr.memVisitor(c, en, rest); ok {
+			return out, true
+		}
+		if out, ok := tr.memVisitorVar(c, en, rest); ok {
 			return out, true
 		}
 		if name, m, ok := tr.memSeam(c, en); ok {
@@ -990,4 +1014,107 @@ func (tr *translator) memVisitor(c *ast.CallExpr, en *env, rest func(*env) strin
 	out += "  | GPanic => GPanic | GFuel => GFuel\n"
 	out += "  | GOk st => " + letPat(pat) + "\n  " + rest(en) + "\n  end"
 	return tr.wrapPre(pre, out), true
+}
+
+// ---- a void closure stored in a variable and handed to a visitor function (setupPDTForKernel) ----
+
+var memClosureVars = map[string]*ast.FuncLit{} // "<function>.<variable>" -> the closure
+
+type memVoidCtx struct {
+	depth int    // loop depth at the closure
+	pat   string // the closure's loop-carried state
+	ty    string // its Coq type
+}
+
+var memVoidStack []*memVoidCtx
+
+// memLoopR: the result type R of a gloop: inside a void closure a `return` leaves the closure, not the function
+func memLoopR(def string) string {
+	if memOn() && len(memVoidStack) > 0 {
+		return "(" + memVoidStack[len(memVoidStack)-1].ty + " * bool)%type"
+	}
+	return def
+}
+
+func (tr *translator) memClosureKey(name string) string { return tr.fn.Recv + "." + tr.fn.Name + "." + name }
+
+// memVoidReturn: `return` inside a void visitor closure
+func (tr *translator) memVoidReturn(s *ast.ReturnStmt) (string, bool) {
+	if len(memVoidStack) == 0 || len(s.Results) != 0 {
+		return "", false
+	}
+	c := memVoidStack[len(memVoidStack)-1]
+	if tr.cx.loopDepth > c.depth {
+		return "(GOk (GRet (" + c.pat + ", true)))", true
+	}
+	return "(GOk (" + c.pat + ", true))", true
+}
+
+// memVisitorVar: visitFn(<expr mentioning the closure variable>)
+func (tr *translator) memVisitorVar(c *ast.CallExpr, en *env, rest func(*env) string) (string, bool) {
+	param, ok := memCfg.Mem.VisitorVars[exprText(c.Fun)]
+	if !ok || exprText(c.Fun) == "" {
+		return "", false
+	}
+	var lit *ast.FuncLit
+	for _, a := range c.Args {
+		ast.Inspect(a, func(n ast.Node) bool {
+			if id, is := n.(*ast.Ident); is {
+				if fl, found := memClosureVars[tr.memClosureKey(id.Name)]; found {
+					lit = fl
+				}
+			}
+			return true
+		})
+	}
+	if lit == nil {
+		fail("%s: %s is not called with a closure variable", tr.fn.Name, exprText(c.Fun))
+	}
+	if lit.Type.Results != nil && len(lit.Type.Results.List) > 0 {
+		fail("%s: the closure variable passed to %s must have no result", tr.fn.Name, exprText(c.Fun))
+	}
+	en2 := en.clone()
+	var pnames, ptys []string
+	for _, p := range lit.Type.Params.List {
+		for _, n := range p.Names {
+			if n.Name == "_" {
+				continue
+			}
+			ti := typeOf(p.Type, tr.pkg)
+			if ti.width <= 0 {
+				fail("%s: unsupported parameter type of the closure (%s)", tr.fn.Name, n.Name)
+			}
+			if _, dup := en.vars[n.Name]; dup {
+				fail("%s: closure parameter %s shadows a variable of the enclosing function", tr.fn.Name, n.Name)
+			}
+			en2.vars[n.Name] = ti
+			pnames = append(pnames, v(n.Name))
+			ptys = append(ptys, "N")
+		}
+	}
+	if len(pnames) == 0 {
+		fail("%s: the closure has no named parameter", tr.fn.Name)
+	}
+	itemTy := prodOf(ptys)
+	if len(ptys) > 1 {
+		itemTy += "%type"
+	}
+	binder := "(" + pnames[0] + " : " + itemTy + ")"
+	itemLet := ""
+	if len(pnames) > 1 {
+		binder = "(it : " + itemTy + ")"
+		itemLet = "let '" + tupleOf(pnames, "") + " := it in\n  "
+	}
+	tr.visitorUseParam(param, "list "+itemTy)
+	names := carried(en, []ast.Stmt{lit.Body})
+	pat, ty := tr.statePat(names, en)
+	memVoidStack = append(memVoidStack, &memVoidCtx{depth: tr.cx.loopDepth, pat: pat, ty: ty})
+	body := tr.withCtx(ctx{brk: nil, cont: nil, loopDepth: tr.cx.loopDepth}, func() string {
+		return tr.block(lit.Body.List, en2, func(*env) string { return "(GOk (" + pat + ", true))" })
+	})
+	memVoidStack = memVoidStack[:len(memVoidStack)-1]
+	out := "match gvisit (St := " + ty + ") (fun " + binder + " (st : " + ty + ") => " + letPat(pat) + "\n  " + itemLet + body + ") " + param + " " + pat + " with\n"
+	out += "  | GPanic => GPanic | GFuel => GFuel\n"
+	out += "  | GOk st => " + letPat(pat) + "\n  " + rest(en) + "\n  end"
+	return out, true
 }
